@@ -47,6 +47,8 @@ def run_c01(tier, seed):
     nrand = 1500 if tier == "quick" else 20000
     for _ in range(nrand):
         trees.append(G.rand_tree(rng, rng.randint(0, 8), big=True))
+    edge = G.boundary_trees(rng) if tier != "quick" else G.boundary_trees(rng, G.ARITY_EDGES[:5], G.BULK_EDGES[:8])
+    trees += edge
     lines = [G.tree_text(t) for t in trees]
     impl, model, failures = vlib.run_pair("encode", [], lines)
     attribute_failures(chk, "encode", lines, failures, lambda l: l[:200])
@@ -154,12 +156,26 @@ def run_c02(tier, seed):
         else:
             vals = [G.rand_tree(rng, rng.randint(0, 4)) for _ in range(k)]
         streams.append(vals)
+    # values on implementation thresholds (array pre-allocation cap, buffer sizes), each FOLLOWED by further values: a reader that
+    # over-reads or under-reads at such a threshold swallows or loses the neighbour
+    edge = G.boundary_trees(rng) if tier != "quick" else G.boundary_trees(rng, [1024, 1025, 1500], [4096, 16383, 16384, 16385, 65536])
+    for t in edge:
+        streams.append([t, ('i', b"42"), ('b', b"tail")])
     lines, meta = [], []
     kinds = {}
     for vals in streams:
         data = b"".join(G.encode(v) for v in vals)
         if len(data) > 3000:
-            cks = G.chunkings(rng, len(data), dict(two_way_cap=40, kway=4))
+            cks = G.chunkings(rng, len(data), dict(two_way_cap=40 if len(data) < 20000 else 12, kway=4))
+            # splits a few bytes either side of each value boundary, and one big read that ends inside the following value
+            off = 0
+            for v in vals[:-1]:
+                off += len(G.encode(v))
+                for d in (-3, -2, -1, 1, 2, 5):
+                    if 0 < off + d < len(data):
+                        cks.append(("near_boundary", [off + d, len(data) - off - d]))
+                if off > 600:
+                    cks.append(("tail_with_next", [off - 500, 503, len(data) - off - 3] if len(data) - off - 3 > 0 else [off - 500, len(data) - off + 500]))
         else:
             cks = G.chunkings(rng, len(data), dict(two_way_cap=120 if tier == "quick" else 10**9, kway=4))
         for kind, sizes in cks:
@@ -211,6 +227,10 @@ def classify(res):
         # 'N' only appears as a nil element marker in tree text (hex digits are lower case)
         return "nil-element"
     last = res.split(";")[-1]
+    if last == "H":
+        return "hang"
+    if last == "SKIP":
+        return "skipped"
     if last.startswith("P"):
         return "panic"
     if last in ("S", "E", "L"):
@@ -250,6 +270,21 @@ def run_c06(tier, seed):
     for odd in G.ODD_NUMS:
         cases.append(("odd_len", b"$" + odd + b"\r\nabc\r\n"))
         cases.append(("odd_cnt", b"*" + odd + b"\r\n$1\r\na\r\n"))
+    # arrays beyond the pre-allocation cap, cut at and around every element boundary near the cap and its doublings
+    for n in ((1030, 2050) if tier == "quick" else (1025, 1030, 1500, 2050, 4100)):
+        elems = [b"$2\r\ne%d\r\n" % (i % 10) for i in range(n)]
+        head = b"*%d\r\n" % n
+        for k in sorted({1022, 1023, 1024, 1025, 1026, 2047, 2048, 2049, 4095, 4096, 4097, n - 1, n}):
+            if k <= n:
+                body = head + b"".join(elems[:k])
+                cases.append(("trunc_big_array", body))
+                cases.append(("trunc_big_array", body + b"$2\r\ne"))
+                cases.append(("trunc_big_array", b"*2\r\n$1\r\nx\r\n" + body))
+    for t in (G.boundary_trees(rng, [1025], [4096, 16383, 16384, 16385]) if tier == "quick" else G.boundary_trees(rng)):
+        e = G.encode(t)
+        cases.append(("edge_valid", e + b":42\r\n"))
+        cases.append(("edge_valid_cut", e[:-1]))
+        cases.append(("edge_valid_cut", e[:-2]))
     if tier == "thorough":
         cases.append(("big_bulk", G.encode(('b', bytes(rng.randrange(256) for _ in range(1 << 20))))))
         cases.append(("deep", b"*1\r\n" * 5000 + b"$1\r\na\r\n"))
@@ -275,6 +310,12 @@ def run_c06(tier, seed):
         data_hex = line.split(" ")[1]
         if c == "panic":
             chk.violation("parser-panic", "Parser.Next panics on %s: %s" % (data_hex[:120], a[-120:]), dict(line=line, impl=a, input=bytes.fromhex(data_hex if data_hex != "-" else "").decode("latin1")))
+            continue
+        if c == "hang":
+            chk.violation("parser-hang", "Parser.Next does not return within 20 s on %s (a spinning goroutine was left behind)" % data_hex[:160],
+                          dict(line=line, impl=a, input=bytes.fromhex(data_hex if data_hex != "-" else "").decode("latin1")))
+            continue
+        if c == "skipped":
             continue
         if c == "nil-element":
             chk.violation("nil-element", "Parser.Next returns an array with an absent element on %s: %s" % (data_hex[:120], a[:120]),
